@@ -705,6 +705,63 @@ Definition parse_message6 (data : bytes) : option parsed6 :=
   if (length data <? 4)%nat then None
   else Some (parse_options6 (skipn 4 data) (nth 0 data 0) (firstn 3 (skipn 1 data))).
 
+(* ------------------------------------------------------------------ pkg/dhcp/resolve.go ResolveV6 (address / prefix already chosen) and
+   plugins/dhcp6/local HandlePacket for SOLICIT / REQUEST with a resolved lease (handleSolicit -> handleSolicitResolved ->
+   buildAdvertise; handleRequest -> handleRequestResolved -> buildReply) on a fresh provider *)
+Record pool6 := { p6_net : option (bytes * bytes); p6_pref : N; p6_valid : N; p6_opts : list (N * option bytes) }.
+Record profile6 := { f6_pref : N (* DHCPv6.PreferredTime, 0 = unset -> 3600 *); f6_valid : N (* 0 = unset -> 7200 *);
+                     f6_dns : list (option bytes); f6_iana : list pool6; f6_pd : list pool6 }.
+Record ctx6 := { c6_addr : option bytes; c6_prefix : option (bytes * N) (* prefix IP, ones of its mask *); c6_dns : list (option bytes) }.
+Record resolved6 := { r6_na : option (bytes * N * N); r6_pd : option (bytes * N * N * N); r6_dns : list (option bytes);
+                      r6_opts : list (N * bytes) }.
+Definition dflt (x d : N) : N := if x =? 0 then d else x.
+Definition find_pool6 (ip : bytes) (pools : list pool6) : option pool6 :=
+  find (fun p => match p6_net p with Some n => net_contains n ip | None => false end) pools.
+(* pool value if > 0, else the profile's (with its default) *)
+Definition lifetimes6 (pf : profile6) (pool : option pool6) : N * N :=
+  let pr := dflt (f6_pref pf) 3600 in let va := dflt (f6_valid pf) 7200 in
+  match pool with
+  | Some p => ((if 0 <? p6_pref p then p6_pref p else pr), (if 0 <? p6_valid p then p6_valid p else va))
+  | None => (pr, va)
+  end.
+Definition resolve_v6 (cx : ctx6) (pf : profile6) : option resolved6 :=
+  match c6_addr cx, c6_prefix cx with
+  | None, None => None
+  | _, _ =>
+    let na := match c6_addr cx with
+              | Some a => let l := lifetimes6 pf (find_pool6 a (f6_iana pf)) in Some (a, fst l, snd l)
+              | None => None end in
+    let opts := match c6_addr cx with
+                | Some a => match find_pool6 a (f6_iana pf) with
+                            | Some p => concat (map (fun o => match snd o with Some d => [(fst o, d)] | None => [] end) (p6_opts p))
+                            | None => [] end
+                | None => [] end in
+    let pd := match c6_prefix cx with
+              | Some (ip, ones) => let l := lifetimes6 pf (find_pool6 ip (f6_pd pf)) in Some (ip, ones, fst l, snd l)
+              | None => None end in
+    let dns := match c6_dns cx with [] => filter (fun d => match d with Some _ => true | None => false end) (f6_dns pf) | l => l end in
+    Some {| r6_na := na; r6_pd := pd; r6_dns := dns; r6_opts := opts |}
+  end.
+(* the provider: client DUID and IAIDs are echoed from the client's message; an IA is answered only when the client asked
+   for it AND the resolver supplied an address / prefix.  None = no response (no client DUID / message too short). *)
+Definition handle_resolved6 (server_duid client_msg : bytes) (r : resolved6) : option bytes :=
+  match parse_message6 client_msg with
+  | None => None
+  | Some q =>
+    match q_client q with
+    | None => None
+    | Some duid =>
+      let ty := if q_type q =? 1 then 2 else 7 in
+      let na := match q_iana q, r6_na r with
+                | Some ia, Some (a, pr, va) => Some (p_iaid ia, a, pr, va)
+                | _, _ => None end in
+      let pd := match q_iapd q, r6_pd r with
+                | Some ia, Some (ip, ones, pr, va) => Some (p_iaid ia, ip, ones, pr, va)
+                | _, _ => None end in
+      Some (build_response6 ty (q_txid q) duid server_duid na pd (r6_dns r) (r6_opts r))
+    end
+  end.
+
 (* ------------------------------------------------------------------ relay/v6relay.go *)
 Record relay_params := { rp_hop : N; rp_link : option bytes; rp_peer : option bytes; rp_ifid : bytes;
                          rp_remote : bytes; rp_ent : N; rp_sub : bytes }.
